@@ -387,7 +387,16 @@ def gen_scenario(rng, profile):
                 # different connections may coincide (then the scheduler interleaves them)
                 clock = max(clock, (reqs[-1]['at'] + t_sep) if reqs else 0.0)
                 clock += t_sep if rng.random() < 0.6 else 0.0
-            reqs.append({'u': u, 'tid': tid, 'pdu': pdu.hex(), 'at': round(clock, 6), 'join': join, 'tag': tag})
+            item = {'u': u, 'tid': tid, 'pdu': pdu.hex(), 'at': round(clock, 6), 'join': join, 'tag': tag}
+            if (not dgram) and framing != 'tls' and not join and rng.random() < profile.get('cut_rate', 0.0):
+                # the frame arrives in pieces (TCP segmentation / serial read windows)
+                flen = len(codec.frame(framing, u, pdu, tid=tid))
+                if flen > 1:
+                    item['cuts'] = sorted(set(rng.randrange(1, flen) for _ in range(rng.choice([1, 1, 2, 3]))))
+                    item['cutgap'] = rng.choice([0.0, t_sep / 8.0]) if kind != 'sync_serial' else rng.choice([0.0, 1.5 * serial_timeout])
+                    # the next frame of this connection starts strictly after the last piece
+                    clock = round(clock + item['cutgap'] * len(item['cuts']) + t_sep / 4.0, 6)
+            reqs.append(item)
             nreq_total += 1
         conns.append(reqs)
     scn = {'harness': 'srv', 'frontend': kind, 'framing': framing, 'single': single, 'units': units,
@@ -426,7 +435,10 @@ def derive(scn):
                     cur = {'t': r['at'] + j * gap, 'c': c, 'i': i, 'data': fr[pos:x], 'reqs': [i]}
                     events.append(cur)
                     pos = x
-    events.sort(key=lambda e: (e['t'], e['c'], e['i']))
+    for n, e in enumerate(events):
+        e['t'] = round(e['t'], 9)
+        e['n'] = n                  # generation order: pieces of one frame stay in order
+    events.sort(key=lambda e: (e['t'], e['c'], e['i'], e['n']))
     dels = []
     prev = 0.0
     for e in events:
